@@ -138,3 +138,58 @@ def run(rep, ctx, anchor, rule="R1all"):
                 "reaches its use at %s: that element is combined with a constant and is not bound to the transcript" % (
                     nm, where_of(f, bid, d), where_of(f, bid, u)), where_of(f, bid, d))
     return nsq
+
+
+# ---------------------------------------------------------------------------------------------------------
+# R1ret: a helper that derives challenges from the transcript does so on every (non-refusing) return
+def run_returns(rep, ctx, anchor, rule="R1ret"):
+    """helpers in the verifier's scope that receive the sponge and return a squeeze-derived value on some path:
+    every other value they return (an `Ok(..)`, a plain value) must be squeeze-derived too. A shortcut such as
+    `if t >= n { return Ok((0..n).collect()) }` hands out "challenges" the transcript has no say in."""
+    g = ctx.graph(anchor)
+    f = ctx.facts
+    sq, nsq = squeeze_derived(ctx, g)
+    n = 0
+    for bid in sorted(g.scope):
+        b = f.bodies[bid]
+        if bid == anchor.body.id or b.kind == "Closure":
+            continue
+        if not any(T.SPONGE_TRAIT in (b.locals[i].get("bounds") or ()) or "CryptographicSponge" in (b.locals[i]["ty"] or "")
+                   for i in range(1, b.arg_count + 1)):
+            continue
+        rty = b.locals[0]["ty"] or ""
+        inner = rty[len("std::result::Result<"):].rsplit(", ", 1)[0] if rty.startswith("std::result::Result<") else rty
+        # only helpers that hand out challenge *data* (indices, scalars, bytes); verdicts and check objects are
+        # other rules' business
+        elem = inner[len("std::vec::Vec<"):-1] if inner.startswith("std::vec::Vec<") and inner.endswith(">") else inner
+        if not (elem in ("usize", "u8", "u64", "u32", "u128", "F") or elem in T.SCALARS):
+            continue
+        if (bid, 0) not in sq:
+            continue
+        n += 1
+        bad = None
+        for i, blk in enumerate(b.blocks):
+            if blk["cleanup"] or i not in b.reachable():
+                continue
+            for st in blk["stmts"]:
+                if st["dst"]["l"] != 0 or st["dst"]["p"]:
+                    continue
+                rv = st["rv"]
+                if rv.get("k") == "agg" and rv.get("variant") == "Err":
+                    continue
+                srcs = [rv["pl"]["l"]] if rv.get("k") in ("ref", "rawptr", "discr") else \
+                    [o["pl"]["l"] for o in rv.get("ops", []) if o["k"] in ("copy", "move")]
+                if not any((bid, l) in sq for l in srcs):
+                    bad = "%s:%s" % (b.file(), st.get("line"))
+            t = blk["term"]
+            if t["k"] == "call" and t["dst"]["l"] == 0 and not t["dst"]["p"]:
+                nm = (t.get("callee") or "").rsplit("::", 1)[-1]
+                if nm == "from_residual":
+                    continue
+                if not any(a["k"] in ("copy", "move") and (bid, a["pl"]["l"]) in sq for a in t["args"]):
+                    bad = t["span"]
+        rep.add(rule, "%s:returns-challenges:%s" % (anchor.key, short(bid)), bad is None,
+                "every value %s returns is derived from the transcript" % short(bid) if bad is None else
+                "%s returns, at %s, a value that is not derived from the transcript although its other returns are: "
+                "on that path the challenge is fixed in advance" % (short(bid), bad), bad or b.span)
+    return n
